@@ -67,7 +67,8 @@ def runOfJson (j : Json) : Except String Run := do
 /-! JSON rendering in the shape of the Go harness -/
 
 def liveJson (o : Live) : Json :=
-  Json.mkObj [("id", idToJson o.id), ("uid", o.uid), ("gen", o.gen), ("owner", o.owner), ("deleting", o.deleting), ("rev", o.rev)]
+  Json.mkObj [("id", idToJson o.id), ("uid", o.uid), ("gen", o.gen), ("owner", o.owner), ("deleting", o.deleting), ("rev", o.rev),
+              ("frm", o.frm.getD "")]
 
 def sortLives (l : List Live) : List Live := l.mergeSort (fun a b => !(Id.lt b.id a.id))
 
@@ -126,7 +127,8 @@ def canonRun (j : Json) : Json :=
 
 def liveOfJson (j : Json) : Except String Live := do
   return { id := ← idOfJson (← jget j "id"), uid := ← jstr j "uid", gen := ← jint j "gen", owner := ← jstr j "owner",
-           deleting := ← jbool j "deleting", rev := ← jstr j "rev" }
+           deleting := ← jbool j "deleting", rev := ← jstr j "rev",
+           frm := match (jstr j "frm").toOption with | some "" => none | some f => some f | none => none }
 
 def snapOfJson (j : Json) : Except String Snap := do
   let inv ← match jopt j "inv" with
